@@ -109,6 +109,22 @@ Theorem C18_fourier_dc_kept : forall Fs n lb ub fft ifft, (0 < n)%nat -> dft_con
   forall x, fft (fourier Fs n lb ub fft ifft x) 0%nat =c= fft x 0%nat.
 Proof. exact fourierC_dc_kept. Qed.
 
+(* the function the correspondence evaluates (mask, then the spectrum of np.real of the inverse) is
+   the mask itself on the spectrum of real data *)
+Theorem C18_fourier_spec_is_masked : forall Fs n lb ub X k, csym n X -> (k < n)%nat ->
+  fourier_spec Fs n lb ub X k =c= masked n (fmask Fs n lb ub) X k.
+Proof. exact fourier_spec_is_masked. Qed.
+
+(* non-vacuity of the band theorems: Fs = 4, n = 8, band [0.75, 1.5]: bins 2, 3 (1 Hz, 1.5 Hz) and
+   their mirrors are kept, bins 1, 4 and mirrors are nulled *)
+Example C18_band_hypotheses_met :
+  Nat.even 8 = true /\ (0 < 2 < 8)%nat /\ (0 < 1 < 8)%nat /\
+  Qle_bool (3 # 4) (tfreq 4 8 2) && Qle_bool (tfreq 4 8 2) (3 # 2) = true /\
+  Qle_bool (3 # 4) (tfreq 4 8 1) && Qle_bool (tfreq 4 8 1) (3 # 2) = false /\
+  zeroed 8 (idx0 4 8 (3 # 4) (3 # 2)) 2 = false /\ zeroed 8 (idx0 4 8 (3 # 4) (3 # 2)) 1 = true /\
+  zeroed 8 (idx0 4 8 (3 # 4) (3 # 2)) 7 = true /\ zeroed 8 (idx0 4 8 (3 # 4) (3 # 2)) 6 = false.
+Proof. exact band_hyps_example. Qed.
+
 (* non-vacuity: the contract is met by the actual 4-point DFT over Q[i], and a concrete run *)
 Example C18_contract_inhabited : dft_contract 4 fft4 ifft4.
 Proof. exact dft4_contract. Qed.
@@ -163,6 +179,13 @@ Theorem C18_hp_taps_dc : forall ntaps b, (0 < ntaps)%nat ->
   sumn (hp_taps ntaps b) ntaps == 1 - sumn b ntaps.
 Proof. exact hp_taps_dc. Qed.
 
+Example C18_linear_filter_exists : lin 5 (fun x t => 2 * x t + x (t - 1)%nat).
+Proof. exact lin_example. Qed.
+Example C18_fir_plan_runs :
+  fir_plan 2 (1 # 5) (Some (3 # 5)) 8 44 = Plan 9 [LP ((3 # 5) / (2 / 2)); HP ((1 # 5) / (2 / 2))] /\
+  fir_plan 2 0 None 8 44 = Plan 9 [] /\ fir_plan 2 0 (Some (1 # 5)) 40 12 = PlanErr /\
+  fir_plan 2 0 (Some (6 # 5)) 8 44 = PlanErr.
+Proof. exact fir_plan_example. Qed.
 Example C18_dc_restore_nonvacuous :
   all2 Qeq_bool (map (dc_restore 3 (lq [1; 2; 6]) (lq [0; 1; 1])) [0; 1; 2]%nat) [7 # 3; 10 # 3; 10 # 3] = true
   /\ mean (lq [1; 2; 6]) 3 == 3.
@@ -187,6 +210,11 @@ Theorem C18_filter_axis_ok : forall m i, rate_consistent i ->
 Proof. exact filter_axis_ok. Qed.
 Print Assumptions C18_filter_axis_ok.
 
+Example C18_filter_axis_run :
+  out_axis (MFir 2) (mk_tsin [2; 44]%Z 2%float 500000000000%Z 5000000000%Z Ums)
+  = Some (mk_axis [2; 44]%Z 500000000000%Z 5000000000%Z Ums) /\
+  rate_consistent (mk_tsin [2; 44]%Z 2%float 500000000000%Z 5000000000%Z Ums).
+Proof. exact axis_example. Qed.
 Example C18_rate_consistent_inputs :
   interval_by_rate 2%float Us = Some 500000000000%Z /\
   interval_by_rate 2%float Ums = Some 500000000000%Z /\
